@@ -109,6 +109,30 @@ def crop_case(draw):
     return s
 
 
+DIM_NAMES = ["frequency", "x", "drop", "method", "tolerance", "indexers", "dim", "kwargs", "fill_value", "mode", "time_2", "t"]
+
+
+def renamed_agrees(ctx, spec, what, fn, arr, out, *args, **kw):
+    """The operation is about the named dimension, whatever it is called: the same array with its time axis renamed (to a name that
+    happens to be an xarray keyword as well) gives the same samples on the same coordinates."""
+    import json
+    import zlib
+
+    name = DIM_NAMES[zlib.crc32(json.dumps(spec, sort_keys=True, default=str).encode()) % len(DIM_NAMES)]
+    try:
+        r = fn(arr.rename({"time": name}), name, *args, **kw)
+    except Exception as e:  # noqa: BLE001
+        ctx.fail(f"{what} on a dimension named {name!r} raised {type(e).__name__}: {str(e)[:160]} (on 'time' it returns)", spec, repr(e)[:200], None, kind="dim_name")
+        return
+    if name not in r.dims:
+        ctx.fail(f"{what} on a dimension named {name!r}: the result has dimensions {r.dims}", spec, list(r.dims), None, kind="dim_name")
+        return
+    r = r.rename({name: "time"}).transpose(*out.dims)
+    if r.shape != out.shape or not np.array_equal(r.values, out.values, equal_nan=True) or not np.array_equal(r.coords["time"].values, out.coords["time"].values):
+        ctx.fail(f"{what} on a dimension named {name!r} gives {r.sizes['time']} samples, on the same axis named 'time' {out.sizes['time']}", spec, r.coords["time"].values.tolist()[:5], out.coords["time"].values.tolist()[:5], kind="dim_name")
+    ctx.label("renamed_dimension")
+
+
 def check_crop(spec, ctx):
     from soundevent import arrays
 
@@ -136,6 +160,7 @@ def check_crop(spec, ctx):
     before = snapshot(arr)
     out = ctx.call(spec, f"crop_dim({kw})", arrays.crop_dim, arr, "time", **kw)
     ctx.unchanged(spec, "crop_dim: the input array", before, arr)
+    renamed_agrees(ctx, spec, "crop_dim", arrays.crop_dim, arr, out, **kw)
     # positional form (documented order: arr, dim, start, stop, right_closed, left_closed) and numpy scalars
     pos = arrays.crop_dim(arr, "time", kw.get("start"), kw.get("stop"), kw.get("right_closed", False), kw.get("left_closed", True))
     nps = arrays.crop_dim(arr, "time", **{k: (np.float64(v) if isinstance(v, float) else v) for k, v in kw.items()})
@@ -218,6 +243,7 @@ def check_extend(spec, ctx):
     before = snapshot(arr)
     out = ctx.call(spec, f"extend_dim({kw})", arrays.extend_dim, arr, "time", **kw)
     ctx.unchanged(spec, "extend_dim: the input array", before, arr)
+    renamed_agrees(ctx, spec, "extend_dim", arrays.extend_dim, arr, out, **kw)
     nps = arrays.extend_dim(arr, "time", **{k: (np.float64(v) if isinstance(v, float) else v) for k, v in kw.items()})
     if not nps.identical(out):
         ctx.fail("extend_dim called with numpy scalars differs from the call with Python floats", spec, None, None, kind="call_style")
@@ -299,6 +325,7 @@ def check_width(spec, ctx):
     else:
         out = ctx.call(spec, f"adjust_dim_width(width={w}, position={pos})", arrays.operations.adjust_dim_width, arr, "time", w, fill_value=fill_v, position=pos)
     ctx.unchanged(spec, "adjust_dim_width: the input array", before, arr)
+    renamed_agrees(ctx, spec, "adjust_dim_width", arrays.operations.adjust_dim_width, arr, out, w, fill_value=fill_v, position=pos)
     if pos == "start":  # documented defaults: position="start", fill_value=0
         d_out = arrays.operations.adjust_dim_width(arr, "time", w)
         if d_out.sizes["time"] != out.sizes["time"] or not np.array_equal(d_out.coords["time"].values, out.coords["time"].values):
